@@ -12,6 +12,7 @@ import (
 
 	"github.com/Query-farm/vgi-rpc-go/vgirpc/internal/verif/venum"
 	"github.com/Query-farm/vgi-rpc-go/vgirpc/internal/verif/vsched"
+	"github.com/apache/arrow-go/v18/arrow"
 )
 
 // C15 — token lifetime is enforced and the call cache never changes outcomes.
@@ -25,6 +26,30 @@ import (
 // "cursor age <= ttl and call-token age <= ttl".
 
 const vfC15TTL = 10 * time.Second
+
+// Odd streams are calls of a DYNAMIC method that declares its input schema at init (int64 x): that
+// schema travels in the call token / call cache, and every continuation sends int32 x, so what
+// the state sees depends on the resolved call. vfC15SeenIn is the input type of the latest turn.
+var vfC15SeenIn string
+
+type VfC15Dyn struct{ N int }
+
+func (d *VfC15Dyn) Exchange(ctx context.Context, in arrow.RecordBatch, out *OutputCollector, cc *CallContext) error {
+	vfC15SeenIn = in.Schema().Field(0).Type.String()
+	d.N++
+	return out.Emit(vfI64Batch("v", int64(d.N)))
+}
+
+func init() { RegisterStateType(&VfC15Dyn{}) }
+
+func vfC15Method(stream int) string {
+	if stream%2 == 1 {
+		return "dx"
+	}
+	return "ex"
+}
+
+var vfC15I32Schema = arrow.NewSchema([]arrow.Field{{Name: "x", Type: arrow.PrimitiveTypes.Int32}}, nil)
 
 type vfC15World struct {
 	h      []*HttpServer
@@ -53,6 +78,9 @@ func vfC15NewWorld(cache int, nInst, nStreams int) *vfC15World {
 		Exchange(s, "ex", vfOutSchema, vfInSchema, func(ctx context.Context, cc *CallContext, p VfXParams) (*StreamResult, error) {
 			return &StreamResult{OutputSchema: vfOutSchema, State: &VfExchanger{}}, nil
 		})
+		DynamicStreamWithHeader(s, "dx", VfHeader{}.ArrowSchema(), func(ctx context.Context, cc *CallContext, p VfXParams) (*StreamResult, error) {
+			return &StreamResult{OutputSchema: vfOutSchema, InputSchema: vfInSchema, State: &VfC15Dyn{}}, nil
+		})
 		h, _ := NewHttpServerWithKey(s, key)
 		h.SetTokenTTL(vfC15TTL)
 		if cache >= 0 {
@@ -64,7 +92,8 @@ func vfC15NewWorld(cache int, nInst, nStreams int) *vfC15World {
 }
 
 func (w *vfC15World) init(stream, inst int) bool {
-	rec, pan := vfArrowPost(w.h[inst], "/ex/init", vfXReq("ex", int64(stream)))
+	m := vfC15Method(stream)
+	rec, pan := vfArrowPost(w.h[inst], "/"+m+"/init", vfXReq(m, int64(stream)))
 	if pan != nil || rec.Code != 200 {
 		return false
 	}
@@ -85,7 +114,8 @@ func (w *vfC15World) cont(stream, inst int) string {
 // contWith continues `stream` presenting callTok as the call token (the stream's own one, another
 // stream's, or none at all).
 func (w *vfC15World) contWith(stream, inst int, callTok string) string {
-	rec, pan := vfArrowPost(w.h[inst], "/ex/exchange", vfExchangeBody(vfI64Batch("x", 1), w.cursor[stream], callTok))
+	vfC15SeenIn = ""
+	rec, pan := vfArrowPost(w.h[inst], "/"+vfC15Method(stream)+"/exchange", vfExchangeBody(vfBatchJSON(vfC15I32Schema, `[{"x":1}]`), w.cursor[stream], callTok))
 	if pan != nil {
 		return fmt.Sprintf("other:panic %v", pan)
 	}
@@ -110,6 +140,10 @@ func (w *vfC15World) contWith(stream, inst int, callTok string) string {
 				}
 			}
 			return "accept-served-as-" + as
+		}
+		if stream%2 == 1 && vfC15SeenIn != "int64" {
+			// the declared input schema (int64) was not applied to the int32 input
+			return "accept-input-not-cast-state-saw-" + vfC15SeenIn
 		}
 		return "accept"
 	case rec.Code >= 400 && rec.Code < 500 && nErr == 1:
